@@ -99,6 +99,8 @@ def order_tables(ctx, units, prefixes, prelude, rnd):
         cand.append(("au::RatioPow<au::%s, 1, %d>" % (u.name, e), None, ("pow", u.name, Fraction(1, e))))
     for _ in range(6 if not ctx.thorough else 30):
         a, b = rnd.sample(units, 2)
+        if gid[a.name][1] > 1 and gid[a.name][0] == gid[b.name][0]:
+            continue  # the product of two colliding named units cannot even be formed (documented limitation)
         cand.append(("au::UnitProductT<au::%s, au::%s>" % (a.name, b.name), None, None))
     if not ctx.thorough:
         keep = [c for c in cand if c[1] is None]
